@@ -31,10 +31,39 @@ bool g_null_val;        // some entries store a NULL value pointer (the map as a
 bool g_null_key;
 static inline int kval(const void *k) { return k ? ((const struct KeyCell *)k)->value : 0; }
 int key_class(int v) { return g_cmp_kind == 2 ? v % g_mod : v; }
+// "any comparison function" includes one that consults another map while it compares (keys ordered by a rank that
+// lives in an index map). In re-entrant cases (header byte 3, bits 7 and 6) every comparison of the map under test
+// performs two lookups in a small auxiliary map of its own: one that must hit and one that must miss.
+bool g_reenter;
+cstl_map_t g_aux;
+int g_aux_token;
+size_t g_base_live;         // library allocations held by the auxiliary map
+KeyCell g_aux_keys[3] = {{1000001, -2}, {1000003, -2}, {1000005, -2}};
+int aux_cmp(const void *a, const void *b, void *p)
+{
+    CHECK_NOTHROW(p == &g_aux_token, "C08.cmp.priv", "compare function of the auxiliary map received a different priv pointer");
+    int x = kval(a), y = kval(b);
+    return (x > y) - (x < y);
+}
+void aux_lookups(int x)
+{
+    HarnessScope hs;
+    CNT("class.map.reentrant_cmp");
+    KeyCell hit{(int)(1000001 + 2 * (((unsigned)x) % 3)), -1}, miss{(int)(2000000 + (x & 0xffff)), -1};
+    cstl_map_iterator_t it;
+    const cstl_map_iterator_t *end;
+    LIB(cstl_map_find(&g_aux, &hit, &it));
+    LIB(end = cstl_map_iterator_end(&g_aux));
+    CHECK_NOTHROW(!cstl_map_iterator_eq(&it, end) && it.key == &g_aux_keys[((unsigned)x) % 3], "C08.find.iff",
+                  "a lookup made from inside the comparison function of another map did not find a present key");
+    LIB(cstl_map_find(&g_aux, &miss, &it));
+    CHECK_NOTHROW(cstl_map_iterator_eq(&it, end), "C08.find.iff", "a lookup made from inside the comparison function of another map found an absent key");
+}
 int cmp_cb(const void *a, const void *b, void *p)
 {
     CHECK_NOTHROW(p == &g_priv_token, g_prop == "C15" ? "C15.map.reuse" : "C08.cmp.priv", "compare function received a different priv pointer");
     int x = key_class(kval(a)), y = key_class(kval(b));
+    if (g_reenter) aux_lookups(x ^ y);
     // any negative / zero / positive int is a valid answer: differences, +-1, and values that do not fit a short or a char
     if (g_cmp_kind == 3) return x < y ? -2000000000 : x > y ? 2000000000 : 0;
     if (g_cmp_kind == 4) return (x > y) - (x < y);
@@ -329,7 +358,7 @@ void apply(Map &mp, CaseCtx &cx, int op, uint8_t a, uint8_t b, int K, size_t max
         size_t sz;
         LIB(sz = cstl_map_size(&mp.m));
         CHECK(sz == 0, g_prop == "C15" ? "C15.map.empty" : "C08.size", "%s size %zu after clear", mp.tag, sz);
-        CHECK(lib_live_count() == 0 || g_prop == "C15", "C08.clear.released", "%s clear left %zu library allocations", mp.tag, lib_live_count());
+        CHECK(lib_live_count() == g_base_live || g_prop == "C15", "C08.clear.released", "%s clear left %zu library allocations", mp.tag, lib_live_count() - g_base_live);
         if (n >= 3) cx.clear3 = true;
         break;
     }
@@ -355,9 +384,24 @@ void vf_run(const uint8_t *data, size_t len)
     int K = KEYS[cur.u8() % NKEYS];
     g_cmp_kind = cur.u8() % 5;
     { uint8_t mb = cur.u8(); g_mod = 2 + (mb & 0x3f) % 5; g_null_key = (mb & 0x80) != 0; g_null_val = (mb & 0x40) != 0; }
-    size_t maxlive = MAXLIVE[cur.u8() % 8];
+    uint8_t lb = cur.u8();
+    size_t maxlive = MAXLIVE[lb % 8];
     int prof = cur.u8() % NPROFILES;
     bool c15 = g_prop == "C15", c16 = g_prop == "C16";
+    g_reenter = false;
+    g_base_live = 0;
+    if ((lb & 0xC0) == 0xC0) {
+        // (set up outside the case's fault plan and allocation numbering: the auxiliary map is scenery)
+        uint64_t ord0 = g_alloc_ordinal, ff0 = g_fail_from;
+        std::vector<uint64_t> fo0;
+        fo0.swap(g_fail_ordinals);
+        g_fail_from = UINT64_MAX;
+        LIB(cstl_map_init(&g_aux, aux_cmp, &g_aux_token));
+        for (int i = 0; i < 3; i++) { cstl_map_iterator_t it; int r; LIB(r = cstl_map_insert(&g_aux, &g_aux_keys[i], nullptr, &it)); (void)r; }
+        g_alloc_ordinal = ord0; g_fail_from = ff0; fo0.swap(g_fail_ordinals);
+        g_base_live = lib_live_count();
+        g_reenter = true;
+    }
     CaseCtx cx{};
     cx.last_ins = -1;
     M.init("map");
@@ -409,7 +453,13 @@ void vf_run(const uint8_t *data, size_t len)
     apply(M, cx, CLEAR_CB, 0, 0, K, maxlive, nullptr);
     if (twin) apply(MW, cx, CLEAR_CB, 0, 0, K, maxlive, nullptr);
     CHECK(M.cells.empty(), cl_once(), "%zu key/value cells never reached the clear callback", M.cells.size());
-    CHECK(lib_live_count() == 0, pfx16("C08.clear.released", "C16.map.leak"), "clear left %zu library allocations", lib_live_count());
+    CHECK(lib_live_count() == g_base_live, pfx16("C08.clear.released", "C16.map.leak"), "clear left %zu library allocations", lib_live_count() - g_base_live);
+    if (g_reenter) {
+        g_reenter = false;
+        LIB(cstl_map_clear(&g_aux, NULL, NULL));
+        CHECK(lib_live_count() == 0, "C08.clear.released", "clear of the auxiliary map left %zu library allocations", lib_live_count());
+        g_base_live = 0;
+    }
     if (c15) g_nontrivial = cx.clear3 && cx.reuse;
     else if (c16) g_nontrivial = g_faults_hit >= 1 && cx.ops_after_fault >= 3;
     else g_nontrivial = cx.reinsert && cx.erase_then_find && cx.nonasc;
